@@ -124,6 +124,19 @@ func c07FromTime(w *rt.W, unixSec int64, offset int) {
 	var d date.Date
 	d.FromTime(t)
 	c07CheckDate(w, "fromtime-method", "fromtime", args, d, wy, wm, wd)
+	// receivers that already hold a date (the UTC day of the instant, its neighbours, an unrelated day)
+	// must be overwritten completely: no dependence on the previous content
+	for _, prev := range []int64{floorDiv64(unixSec, 86400), floorDiv64(unixSec, 86400) - 1, floorDiv64(unixSec, 86400) + 1, 0, 11016} {
+		r := ordDate(prev)
+		r.FromTime(t)
+		c07CheckDate(w, "fromtime-method-on-used-receiver", "fromtime", args, r, wy, wm, wd)
+		r2 := ordDate(prev)
+		if err := r2.Scan(t); err != nil {
+			w.Fail("scan-error", "fromtime", args, err.Error(), "nil", "Scan(time.Time) must succeed")
+		}
+		c07CheckDate(w, "scan-on-used-receiver", "fromtime", args, r2, wy, wm, wd)
+		w.Eval(2)
+	}
 	var s date.Date
 	if err := s.Scan(t); err != nil {
 		w.Fail("scan-error", "fromtime", args, err.Error(), "nil", "Scan(time.Time) must succeed")
@@ -312,6 +325,40 @@ func runC07(c *rt.Ctx) {
 			}
 		}
 	})
+	// the process-local zone is configuration the arithmetic must not depend on
+	zf, zl := ref.Ordinal(1990, 1, 1), ref.Ordinal(2030, 12, 31)
+	for _, loc := range hostileZones() {
+		loc := loc
+		withLocal(loc, func() {
+			c.Parallel("zones/"+loc.String(), 0, func(w *rt.W) {
+				for o := zf + int64(w.Shard); o <= zl; o += int64(w.NShards) {
+					c07Pair(w, o, o+1)
+					c07Pair(w, o+1, o)
+					c07Pair(w, o, o)
+					c07Time(w, o)
+					c07Add(w, o, 0, 0, 1)
+					c07Add(w, o, 0, 1, 0)
+					c07Add(w, o, 1, -1, 31)
+					c07Add(w, o, 0, 0, -1)
+					for _, d := range []time.Duration{0, 1, -1, time.Hour, -time.Hour, 23 * time.Hour, 24 * time.Hour, 25 * time.Hour, -24 * time.Hour, 12 * time.Hour} {
+						c07AddDuration(w, o, d)
+					}
+					if o%7 == 0 {
+						c07FromTime(w, o*86400+3600, 7200)
+						c07FromTime(w, o*86400-3600, -7200)
+						// the instant shown in the process-local zone itself
+						t := time.Unix(o*86400+1800, 0).In(time.Local)
+						_, off := t.Zone()
+						c07FromTime(w, o*86400+1800, off)
+						wy, wm, wd := ref.Civil(floorDiv64(o*86400+1800+int64(off), 86400))
+						c07CheckDate(w, "fromtime-local-zone", "fromtime", rt.Args("unix_sec", o*86400+1800, "offset_sec", off, "zone", time.Local.String()), date.FromTime(t), wy, wm, wd)
+					}
+				}
+				w.ClassN("local-zone-sweep", 1)
+			})
+		})
+	}
+	c.Require("local-zone-sweep", int64(len(hostileZones())))
 	c.Require("fromtime-non-utc-zone-near-midnight", 100000)
 	c.Require("adjacent-pair-crossing-month", 119000)
 	c.Require("boundary-pair-rows", 1)
